@@ -3,6 +3,7 @@ package main
 import (
 	"fmt"
 	"go/token"
+	"go/types"
 
 	"golang.org/x/tools/go/ssa"
 )
@@ -10,13 +11,14 @@ import (
 func init() {
 	register(&propDef{
 		ID:          "C17",
-		Explanation: "Sibling-agreement, value-origin and ordering rules for unknown information elements, decided on SSA: (1) in the template field reader every registry lookup (one per sibling branch: IANA / enterprise) is followed, on its miss edge, by 'decodingMode == Strict => return the error', and otherwise by the substitute NewInfoElement(\"\", id, OctetArray, enterprise, length) whose id and enterprise number are the very values passed to the lookup and whose length is the field-length wire variable of this field specifier (not the registry default, not VariableLength, not a cached element); both branches have the same shape; (2) in the data reader every bytes.Buffer.Next(n) takes n from the one length selection 'getFieldLength() if ie.Len == VariableLength else int(ie.Len)', that Next dominates the drop decision, and the drop decision is exactly decodingMode == LenientDropUnknown && ie.Name == \"\" whose taken edge skips only the append - so the bytes of an unknown field are consumed identically in all three modes and known fields keep their alignment; (3) no registry literal has an empty name (a known field can never be dropped); (4) keep mode: the octet-array case of the element decoder copies exactly the bytes it is given. Strict mode's 'the data that follows is rejected' is C04's rule (no template stored on the error path). Not decided: value equality of known fields across modes (implied by identical consumption). Later additions: field-specifier values are fresh per field; the stored field list is replaced unconditionally (a placeholder's length comes from the template); reverse-registry entries only under err == nil. Round-five additions: the decodingMode field is initialised from the defaulted value (empty input means strict).",
+		Explanation: "Sibling-agreement, value-origin and ordering rules for unknown information elements, decided on SSA: (1) in the template field reader every registry lookup (one per sibling branch: IANA / enterprise) is followed, on its miss edge, by 'decodingMode == Strict => return the error', and otherwise by the substitute NewInfoElement(\"\", id, OctetArray, enterprise, length) whose id and enterprise number are the very values passed to the lookup and whose length is the field-length wire variable of this field specifier (not the registry default, not VariableLength, not a cached element); both branches have the same shape; (2) in the data reader every bytes.Buffer.Next(n) takes n from the one length selection 'getFieldLength() if ie.Len == VariableLength else int(ie.Len)', that Next dominates the drop decision, and the drop decision is exactly decodingMode == LenientDropUnknown && ie.Name == \"\" whose taken edge skips only the append - so the bytes of an unknown field are consumed identically in all three modes and known fields keep their alignment; (3) no registry literal has an empty name (a known field can never be dropped); (4) keep mode: the octet-array case of the element decoder copies exactly the bytes it is given. Strict mode's 'the data that follows is rejected' is C04's rule (no template stored on the error path). Not decided: value equality of known fields across modes (implied by identical consumption). Later additions: field-specifier values are fresh per field; the stored field list is replaced unconditionally (a placeholder's length comes from the template); reverse-registry entries only under err == nil. Round-five additions: the decodingMode field is initialised from the defaulted value (empty input means strict). Round-six additions: no error return of decodeDataSet is decided by the number of kept elements.",
 		Assume:      []string{"registry.GetInfoElementFromID returns an error exactly when the element is not registered"},
 		Run:         runC17,
 	})
 }
 
 func runC17(p *Prog, r *Report, tier string) {
+	checkKeptCountNotDeciding(p, r, "R-MODE.kept-count")
 	// (1) field reader: the closure of decodeTemplateSet that calls registry.GetInfoElementFromID
 	var fr *ssa.Function
 	for _, f := range p.RepoFns {
@@ -582,4 +584,62 @@ func checkDecodingModeDefault(p *Prog, r *Report, rule string) {
 	if n == 0 {
 		r.Undecided(rule, "anchor: stores to CollectingProcess.decodingMode", "pkg/collector/process.go", "none found")
 	}
+}
+
+// checkKeptCountNotDeciding: in drop mode the decoded record holds only the KEPT fields, so their number depends on the
+// decoding mode; whether a data set is accepted must depend on what was consumed, never on how many elements were kept
+// (a template made of unknown elements only is delivered with zero fields in drop mode, exactly the unknown ones omitted).
+func checkKeptCountNotDeciding(p *Prog, r *Report, rule string) {
+	f := p.Fn("(*pkg/collector.CollectingProcess).decodeDataSet")
+	if f == nil {
+		r.Undecided(rule, "anchor: decodeDataSet", "pkg/collector/process.go", "not found")
+		return
+	}
+	isKeptLen := func(v ssa.Value) bool {
+		c, ok := v.(*ssa.Call)
+		if !ok {
+			return false
+		}
+		b, ok := c.Call.Value.(*ssa.Builtin)
+		if !ok || b.Name() != "len" {
+			return false
+		}
+		sl, ok := c.Call.Args[0].Type().Underlying().(*types.Slice)
+		return ok && typeName(sl.Elem()) == "pkg/entities.InfoElementWithValue"
+	}
+	errorAhead := func(b *ssa.BasicBlock) bool {
+		for d := 0; d < 3 && b != nil; d++ {
+			if len(b.Instrs) == 0 {
+				return false
+			}
+			last := b.Instrs[len(b.Instrs)-1]
+			if isErrorReturn(last) {
+				return true
+			}
+			if _, ok := last.(*ssa.Jump); ok {
+				b = b.Succs[0]
+				continue
+			}
+			return false
+		}
+		return false
+	}
+	bad := ""
+	pos := p.pos(f.Pos())
+	eachInstr(f, func(in ssa.Instruction) {
+		iff, ok := in.(*ssa.If)
+		if !ok {
+			return
+		}
+		bo, ok := iff.Cond.(*ssa.BinOp)
+		if !ok || !(isKeptLen(bo.X) || isKeptLen(bo.Y)) {
+			return
+		}
+		if errorAhead(in.Block().Succs[0]) || errorAhead(in.Block().Succs[1]) {
+			bad = "an error return is decided by the number of kept elements"
+			pos = p.instrPos(in)
+		}
+	})
+	r.Check(bad == "", rule, fnKey(f)+": acceptance does not depend on the number of kept elements", pos, "errors depend on consumption (bytes read) only",
+		bad+": in LenientDropUnknown a data set whose template holds unknown elements only is refused instead of delivered with those fields omitted", true)
 }
